@@ -81,6 +81,9 @@ func WorkerMain(args []string) int {
 	wio := &workerIO{journal: jf, out: of}
 	env := &Env{Tier: tier, Seed: seed, KF: kf, Race: filter == "race"}
 	cases := w.Cases(tier, seed, kf)
+	for i := range cases {
+		cases[i].Idx = i
+	}
 	for _, c := range cases {
 		isRace := c.HasOpt("race")
 		if (filter == "race") != isRace && filter != "all" {
@@ -648,17 +651,34 @@ func (r *Runner) Run() int {
 		}
 	}
 	sort.Strings(order)
+	if os.Getenv("VERIF_DUMP") != "" {
+		if f, err := os.Create(filepath.Join(r.VerifDir, "replay", fmt.Sprintf("%s-%s-violations.jsonl", r.Prop, r.Tier))); err == nil {
+			for i := range agg.Viol {
+				b, _ := json.Marshal(agg.Viol[i])
+				f.Write(append(b, '\n'))
+			}
+			f.Close()
+		}
+	}
+	if len(order) > 0 {
+		var sb strings.Builder
+		for _, key := range order {
+			g := groups[key]
+			fmt.Fprintf(&sb, "x%d\t%s\t%s\n", g.n, key, g.v.Detail)
+		}
+		os.WriteFile(filepath.Join(r.VerifDir, "replay", fmt.Sprintf("%s-%s-summary.txt", r.Prop, r.Tier)), []byte(sb.String()), 0o644)
+	}
 	for i, key := range order {
 		g := groups[key]
 		unexplained += g.n
-		if i < 25 {
+		if i < 10 {
 			p := writeReplay(g.v)
 			fmt.Printf("VIOLATION property=%s replay=%s\n", r.Prop, p)
 			fmt.Printf("  %s (x%d) features=%v: %s\n", g.v.Class, g.n, g.v.Features, g.v.Detail)
 		}
 	}
-	if len(order) > 25 {
-		fmt.Printf("  ... and %d more violation classes\n", len(order)-25)
+	if len(order) > 10 {
+		fmt.Printf("  ... and %d more violation classes\n", len(order)-10)
 	}
 	if unexplained > 0 {
 		exit = 1
